@@ -586,7 +586,7 @@ func main() {
 	e.cells, e.names = layout()
 	total := *nFlag
 	if total == 0 {
-		total = c.Pick(20000, 300000)
+		total = c.Pick(15000, 300000)
 	}
 	e.suiteB()
 	e.suiteC(c.Pick(300, 3000))
